@@ -31,8 +31,37 @@ package pipeline
 //@ func GleecePipeline.getControllers trusted
 //@ func GleecePipeline.getReductionContext trusted
 
-//@ func GleecePipeline.reduceControllers trusted havocs
+// Reduction hands out import serials on first use, so the order in which controllers are reduced is part of the
+// output: it must be the canonical (package path, name) order whatever order the graph produced (C13).
+//@ spec ctlBefore(a metadata.ControllerMeta, b metadata.ControllerMeta) bool = a.Struct.PkgPath < b.Struct.PkgPath || (a.Struct.PkgPath == b.Struct.PkgPath && !(b.Struct.Name < a.Struct.Name))
+//@ extern slices.Clone
+//@ ensures? fresh(result) && len(result) == len(s)
+//@ extern github.com/gopher-fleece/gleece/v2/core/metadata.ControllerMeta.Reduce havocs
+//@ func GleecePipeline.reduceControllers props C13,C14 havocs
+// (stated for the moment the loop is entered - i.e. an assertion on what the sort established; the reductions
+// themselves may change any heap)
+//@ loop 0 invariant implies(_n == 0, forall(i, 0, len(controllers)-1, ctlBefore(controllers[i], controllers[i+1])))
 
 //@ func GleecePipeline.getReducedControllers props C13,C01,C14 havocs
 //@ requires p != nil
 //@ ensures sorted: implies(result1 == nil, forall(i, 0, len(result0)-1, !(result0[i+1].Name < result0[i].Name)))
+
+// Models reach the emitters sorted by name (aliases come sorted out of ComposeAliases: not under contract)
+// assumed frames: the reductions fill the metadata cache and the serial provider; they never reassign the
+// pipeline's own fields
+//@ extern github.com/gopher-fleece/gleece/v2/graphs/symboldg.ComposeStructs
+//@ modifies any(caching.MetadataCache), any(providers.SyncedProvider)
+//@ ensures fresh(result0)
+//@ extern github.com/gopher-fleece/gleece/v2/graphs/symboldg.ComposeAliases
+//@ modifies any(caching.MetadataCache), any(providers.SyncedProvider)
+//@ extern github.com/gopher-fleece/gleece/v2/core/metadata.EnumMeta.Reduce
+//@ modifies any(caching.MetadataCache), any(providers.SyncedProvider)
+//@ extern github.com/gopher-fleece/gleece/v2/graphs/symboldg.SymbolGraphBuilder.Enums
+//@ ensures true
+//@ func GleecePipeline.Graph trusted
+//@ func GleecePipeline.getModels props C13,C14
+//@ requires p != nil && p.symGraph != nil
+//@ modifies any(caching.MetadataCache), any(providers.SyncedProvider)
+//@ ensures structs: implies(result1 == nil, forall(i, 0, len(result0.Structs)-1, !(result0.Structs[i+1].Name < result0.Structs[i].Name)))
+//@ loop 0 invariant fresh(reducedEnums)
+//@ ensures enums: implies(result1 == nil, forall(i, 0, len(result0.Enums)-1, !(result0.Enums[i+1].Name < result0.Enums[i].Name)))
